@@ -417,6 +417,17 @@ func c04Run(c *vlib.Ctx, idx int) {
 		}
 		return simmesos.LaunchPlan{Kind: "running", Delay: d}
 	}
+	s.Master.OnKill = func(t *simmesos.LaunchedTask) string {
+		h.lmu.Lock()
+		armed := h.armTpl != "" && strings.HasPrefix(t.RolePath, h.armTpl+".")
+		h.lmu.Unlock()
+		if armed && t.Mesos == "TASK_STAGING" {
+			// a kill of a task that is still staging takes its time: the call is on record at the master, the task
+			// goes on (what is judged is that the KILL was sent, not what became of the task)
+			return "ignore"
+		}
+		return "killed"
+	}
 	c.Count("histories", 1)
 	if p.Reuse {
 		c.Count("histories_reuse_on", 1)
